@@ -89,7 +89,7 @@ fn main() {
             let mut rec = Recorder::create(&out);
             let kinds: Vec<String> = arg(&args, "--kinds").unwrap_or_else(|| "local,public,pie,pw,pke,keyid".into()).split(',').map(|x| x.to_string()).collect();
             std::panic::set_hook(Box::new(|_| {}));
-            let n = obs_terms::run(&mut rec, &arg(&args, "--cases").expect("--cases"), thorough, seed, &kinds);
+            let n = obs_terms::run(&mut rec, &arg(&args, "--cases").expect("--cases"), thorough, seed, &kinds, arg(&args, "--vectors").as_deref());
             println!("{}", serde_json::json!({"lines": rec.finish(), "records": n}));
         }
         "obs-cjson" => {
